@@ -468,6 +468,20 @@ impl StoreEnv {
     /// Execute one abstract operation.  Returns `{ok, ret}` (un-normalised).
     pub fn exec(&self, op: &Value) -> Value {
         let name = get_str(op, "op").unwrap_or("");
+        if name == "adopt_listed" {
+            // a client looks at the thread list and learns about threads no call has returned to it (left-overs of failed calls)
+            let mut ids = self.ids.lock().unwrap();
+            let mut listed: Vec<String> = self.store().list().into_iter().map(|m| m.continuity_id).collect();
+            listed.sort();
+            let mut n = 0;
+            for id in listed {
+                if !ids.threads.contains(&id) {
+                    ids.threads.push(id);
+                    n += 1;
+                }
+            }
+            return json!({"ok": true, "ret": {"adopted": n}});
+        }
         let t = if get_str(op, "t") == Some("last") {
             self.ids.lock().unwrap().threads.len().saturating_sub(1)
         } else {
